@@ -35,11 +35,11 @@ if grep -q "^FAIL\|^---\|cannot\|undefined" "$OUT"/baseline_with_change.txt; the
 : > "$OUT"/check_results.txt
 for P in "$@"; do
   echo "== $P quick" >> "$OUT"/check_results.txt
-  (cd /verif && VERIF_REPO="$S" ./check "$P" --tier quick) >> "$OUT"/check_results.txt 2>&1; rc=$?
+  (cd "${VERIF_DIR:-/verif}" && VERIF_REPO="$S" ./check "$P" --tier quick) >> "$OUT"/check_results.txt 2>&1; rc=$?
   echo "exit=$rc" >> "$OUT"/check_results.txt
   if [ $rc -eq 0 ]; then
     echo "== $P thorough" >> "$OUT"/check_results.txt
-    (cd /verif && VERIF_REPO="$S" timeout 1500 ./check "$P" --tier thorough) >> "$OUT"/check_results.txt 2>&1; rc=$?
+    (cd "${VERIF_DIR:-/verif}" && VERIF_REPO="$S" timeout 1500 ./check "$P" --tier thorough) >> "$OUT"/check_results.txt 2>&1; rc=$?
     echo "exit=$rc" >> "$OUT"/check_results.txt
   fi
   for r in $(grep -o 'replay=[^ ]*' "$OUT"/check_results.txt | cut -d= -f2 | sort -u); do [ -f "$r" ] && cp "$r" "$OUT"/ ; done
